@@ -16,6 +16,7 @@
 #include <deque>
 #include <list>
 #include <mutex>
+#include <algorithm>
 
 #ifndef C06_GROUP
 #   define C06_GROUP 0
@@ -126,6 +127,7 @@ void run_one( vcase::Case const& c )
         std::printf( " %ld", v );
     }
     std::printf( "\n" );
+    std::fflush( stdout );      // a crash in a later case must not lose this log
     a->finish();
     a.reset();
 }
@@ -168,7 +170,14 @@ template <class GC> struct oq_itraits : public ci::optimistic_queue::traits {
 struct deferred_free {
     static std::mutex& mtx() { static std::mutex m; return m; }
     static std::vector<void*>& list() { static std::vector<void*> l; return l; }
-    static void release() { std::lock_guard<std::mutex> g( mtx()); for ( void* p : list()) ::operator delete( p ); list().clear(); }
+    static void release()
+    {
+        std::lock_guard<std::mutex> g( mtx());
+        std::sort( list().begin(), list().end());       // a node handed back twice is the queue's fault and shows in the
+        list().erase( std::unique( list().begin(), list().end()), list().end());   // history; it must not kill the harness here
+        for ( void* p : list()) ::operator delete( p );
+        list().clear();
+    }
 };
 template <class T>
 struct case_allocator {
